@@ -54,7 +54,8 @@ func WalkFiles(ctx context.Context, path string, watchPattern *regexp.Regexp, ou
 			return nil
 		}
 		if info.IsDir() {
-			if skipdir.ShouldSkip(absPath) {
+			// The root is what the user asked to process, whatever it is called.
+			if path != "." && skipdir.ShouldSkip(absPath) {
 				return filepath.SkipDir
 			}
 			// Only files are generated or watched, a directory called x.templ or x.go isn't a file to process.
